@@ -83,7 +83,7 @@ P('C10', theorems=['Tcs.C10_latest_accepted_any_window', 'Tcs.C10_off_chain_decl
   oracles=[O.o_c10, relabel(O.o_c03, 'C10: a snapshot is accepted exactly when the four conditions hold at that moment and the stored snapshot only moves forward, also when requests overlap')],
   plan={'quick': [hist('c10', 260, 'mem:lib,sql:lib,sql:http'), sched(120, mix='asav', corpus='0', minprefill='3')],
         'thorough': [hist('c10', 5000, 'mem:lib,sql:lib,sql:http'), sched(1500, mix='asav', corpus='0', minprefill='3')]})
-P('C11', theorems=['Tcs.asRunH_lastSnap', 'Tcs.C11_latest_snapshot', 'Tcs.C11_usable_base', 'Tcs.walkOuts_from_base', 'Tcs.C10_latest_accepted_any_window'],
+P('C11', theorems=['Tcs.asRunH_lastSnap', 'Tcs.C11_latest_snapshot', 'Tcs.C11_usable_base', 'Tcs.walkOuts_from_base', 'Tcs.C10_latest_accepted_any_window', 'Tcs.C10_moves_forward'],
   owned={'snap.vid', 'snap.payload', 'gs.kind', 'gcv.kind'},
   oracles=[O.o_c11, relabel(O.o_c03, 'C11: GetSnapshot returns the most recently accepted snapshot, also with AddSnapshot overlapping GetSnapshot, AddVersion and other AddSnapshots under the controlled scheduler')],
   plan={'quick': [hist('c11', 220, LIBHTTP), sched(120, mix='asav', corpus='0', minprefill='3')], 'thorough': [hist('c11', 4000, LIBHTTP), sched(1500, mix='asav', corpus='0', minprefill='3')]})
